@@ -156,7 +156,7 @@ func runInterpIn(c *Ctx, lang syntax.LangVariant, dir, script string, args ...st
 			res.Err = "new: " + err.Error()
 			return
 		}
-		ctx, cancel := context.WithTimeout(context.Background(), 3*time.Second)
+		ctx, cancel := context.WithTimeout(context.Background(), 10*time.Second)
 		defer cancel()
 		err = r.Run(ctx, f)
 		res.Stdout = out.String()
